@@ -2,4 +2,4 @@
 Require Extraction. Require ExtrOcamlBasic.
 From NV Require Import C07.Model.
 Extraction Language OCaml.
-Extraction "c07_model.ml" run_save healthy fail_at expected.
+Extraction "c07_model.ml" run_save healthy fail_at fail_from expected.
